@@ -47,7 +47,7 @@ CHECKS = {
          "DESIGN.md §4 C05"),
  "C06": ("fault_enumeration",
          "fault enumeration over message traces: every single skip/duplicate/swap/insert/replace deviation of 12 honest handshake flavours replayed by a well-keyed deviant peer, judged by an independent order-legality model; drawn deviation pairs",
-         "For each (flavour, deviant side) the honest trace (handshake messages + ChangeCipherSpec) is replayed with one deviation - all positions x {skip, duplicate, swap} and x {insert, replace} with a 14-message pool (incl. a zero-length application-data record), plus append(T) after completion - the deviant's transcript "
+         "For each (flavour, deviant side) the honest trace (handshake messages + ChangeCipherSpec) is replayed with one deviation - all positions x {skip, duplicate, swap} and x {insert, replace} with a 14-message pool (incl. a zero-length application-data record), plus append(T) after completion, a key-changing message sharing its record with (the first bytes of) another message, and a stray handshake fragment in front of any message (inside and outside the sender's transcript) - the deviant's transcript "
          "following what it really sends (so Finished would verify if the victim swallowed the deviation). A type-level legality model classifies the sequence the honest endpoint receives; illegal or truncated handshake parts must never complete, "
          "late illegal messages must kill the connection on the next read; post-handshake ClientHello/HelloRequest/ServerHello/Finished/CCS must never start a second handshake; handshake calls on an open connection must raise ValueError.",
          "order only: content validity of same-typed replacements is C04/C05; stalls count as not completed",
@@ -61,20 +61,20 @@ CHECKS = {
  "C08": ("exploration",
          "structure-aware mutation fuzzing through a well-keyed deviant peer + Hypothesis byte-level targets + coverage-guided fuzzing (atheris/libFuzzer) of the three raw-byte targets; oracle = exception-type / alert / closed / non-resumable / no-spin / bounded-memory clauses",
          "Every handshake message of 12 honest handshake flavours (SSLv3..TLS 1.3, RSA/DHE/ECDHE/anon/SRP, client auth, HRR, tickets, ALPN/NPN/SNI) is mutated before protection by a deviant peer (byte flips, truncation/extension with "
-         "length fix-up, 1/2/3-byte field edits at any offset, zero/empty bodies, huge declared lengths, type changes, vector edge values, extension-level edits of hello messages), so encrypted phases are reached; raw byte strings hit the "
-         "server first flight, the client after its hello and an established connection. The victim must return or raise a TLS/socket exception, have sent a fatal alert for locally detected violations, be closed and non-resumable, never spin, and stay within a memory bound.",
+         "length fix-up, 1/2/3-byte field edits at any offset, zero/empty bodies, huge declared lengths, type changes, vector edge values, extension-level edits of hello messages), so encrypted phases are reached; the messages of a post-handshake authentication travel through read() and are mutated the same way; raw byte strings hit the "
+         "server first flight, the client after its hello and an established connection. The victim must return or raise a TLS/socket exception, have sent a fatal alert for locally detected violations, be closed and non-resumable (flag and Session.valid()), never spin, and stay within a memory bound.",
          "work bounded by a deterministic scheduler step budget; memory measured with tracemalloc in thorough tier and for huge-length cases; timing blow-ups inside C routines are out of reach",
          "DESIGN.md §4 C08"),
  "C09": ("exploration",
          "property-based differential testing (Hypothesis) against independent reference implementations validated with the openssl CLI",
-         "Every shipped pure-Python primitive and derivation function (AES-CBC/CTR, GCM, CCM/CCM-8, ChaCha20, Poly1305, ChaCha20-Poly1305, 3DES, RC4, HMAC, SSLv3/TLS1.0/TLS1.2 PRFs, "
+         "Every shipped pure-Python primitive and derivation function (AES-CBC/CTR, GCM, CCM/CCM-8, ChaCha20, Poly1305, ChaCha20-Poly1305, two- and three-key 3DES, RC4, HMAC, SSLv3/TLS1.0/TLS1.2 PRFs, "
          "HKDF-Expand-Label/Derive-Secret, calc_key/calcMasterSecret/calcFinished, key-block slicing, TLS 1.3 traffic keys and key update) is compared with references written from the "
-         "standards over generated keys/nonces/AAD/labels/lengths/chunkings; AEAD open() is attacked with exhaustive single-bit flips on a short message plus drawn mutations.",
+         "standards over generated keys/nonces/AAD/labels/lengths/chunkings; AEAD open() is attacked with exhaustive single-bit flips on a short message plus drawn mutations; seal()/open() must leave the caller's buffers untouched.",
          "references (vlib/refs) are validated at every run against FIPS/RFC vectors and the openssl CLI (selftest; failure = exit 2); functional equality only",
          "DESIGN.md §4 C09"),
  "C10": ("exploration",
          "property-based testing with independent verifiers (reference RSA verifier, openssl CLI), constructed non-canonical encodings, and fault injection into the victim's key object",
-         "Sign->verify round trips for RSA (PKCS#1 v1.5, PSS), ECDSA, EdDSA, DSA keys are cross-checked with an independent verifier; the negative space covers bit flips, other hash/scheme/key, RSA encodings constructed with the private key "
+         "Sign->verify round trips for RSA (PKCS#1 v1.5, PSS), ECDSA, EdDSA, DSA keys are cross-checked with an independent verifier (DSA: a FIPS 186-4 reference in both directions, digests with a leading zero octet); the negative space covers bit flips, other hash/scheme/key, RSA encodings constructed with the private key "
          "(11 non-canonical variants), (r, s) edge values and DER malformations, non-canonical EdDSA S; FFDH/ECDH/X25519/X448 parties must agree and refuse 7+10 classes of invalid peer shares incl. the known low-order Montgomery points; "
          "a FaultyKey wrapper corrupts the signature at every signing site of 13 handshake flavours and nothing signed may reach the wire.",
          "ECDSA digests are truncated to the curve size as every call site does; a mutated signature accepted by the independent verifier is not counted as forgery",
@@ -104,7 +104,7 @@ CHECKS = {
          "metamorphic property-based testing: scripted sockets / API paths / record re-framing vs the baseline run of the same seed (byte-identical wire, same outcomes)",
          "14 scenarios (handshake flavours incl. failing negotiations, client auth, HRR, SRP, tickets/NPN, followed by writes, exact reads, KeyUpdate, close) are replayed under generated schedules of per-call recv/send sizes with would-blocks and endpoint interleavings, "
          "through AsyncStateMachine, and through the blocking API in two threads; thanks to per-endpoint DRBGs the wire bytes of both directions, view vectors, delivered data and exception classes must equal the unconstrained baseline. "
-         "An on-path re-framer splits plaintext handshake records at arbitrary points / one byte per record, and the sender's own fragmentation is varied (every recordSize 4..299, every record_size_limit 64..259): outcomes must not change. Extreme schedules (1 byte per call, would-block before every call) are enumerated per scenario.",
+         "A failed first send with the peer's alert pending must be reported alike under every receive schedule. An on-path re-framer splits plaintext handshake records at arbitrary points / one byte per record, and the sender's own fragmentation is varied (every recordSize 4..299, every record_size_limit 64..259): outcomes must not change. Extreme schedules (1 byte per call, would-block before every call) are enumerated per scenario.",
          "sendall() modelled as blocking-complete; wire byte-identity depends on the DRBG shim",
          "DESIGN.md §4 C14"),
  "C15": ("exploration",
@@ -117,7 +117,7 @@ CHECKS = {
          "DESIGN.md §4 C15"),
  "C16": ("exploration",
          "model-based stateful property testing of post-handshake traffic with a reference receiver following every key generation; adversarial control messages from a well-keyed sender",
-         "Histories of writes/reads, KeyUpdate (requested or not, either side, crossing), post-handshake authentication requests, heartbeat requests and one final adversarial message (17 kinds) run on an established TLS 1.3 (and TLS 1.2) pair: "
+         "Histories of writes/reads, KeyUpdate (requested or not, either side, crossing), post-handshake authentication requests, heartbeat requests and one final adversarial message (19 kinds, also while an authentication request is pending) run on an established or ticket-resumed TLS 1.3 (and TLS 1.2) pair: "
          "the FIFO model holds after every step, heartbeat callbacks get exactly the request payloads, the server-side client chain changes only through a completed authentication and every context is consumed, both ends end with equal traffic secrets, and the reference receiver - rolling its secrets at every KeyUpdate it sees on the wire - "
          "opens every record of both directions and ends at the same generation; adversarial messages must be answered with a fatal alert (RFC 6520 drop-silently cases must leave the data stream intact). read(max, 0) pump calls never return more than max, and an endpoint that sends control traffic and data, closes and disappears before the peer reads still gets its data and close delivered.",
          "reference receiver validated in C09; adversarial sender is a real endpoint using _sendMsg with raw bytes",
@@ -131,7 +131,7 @@ CHECKS = {
          "DESIGN.md §4 C17"),
  "C18": ("exploration",
          "model-based property testing of sequential histories + schedule-controlled concurrency (settrace scheduler with cooperative locks, generated and bounded-exhaustive schedules) + stress",
-         "Sequential SessionCache histories (set/get/advance-clock/invalidate, small id alphabets so ids repeat, maxEntries 1..6, small maxAge) are compared step by step with a dictionary-with-ages model; 2-3 threads x <= 3 operations on one SessionCache, VerifierDB or Python_RSAKey run under a "
+         "Sequential SessionCache histories (set/get/advance-clock/invalidate, small id alphabets so ids repeat, maxEntries 1..6, small maxAge) are compared step by step with a dictionary-with-ages model, and every history of 6 (thorough 7) steps over an 8-operation alphabet is enumerated; 2-3 threads x <= 3 operations on one SessionCache, VerifierDB or Python_RSAKey run under a "
          "scheduler that owns every line-level preemption point and every lock the objects create (also lazily, on a key that is fresh in every case): results must be explainable by a program-order-respecting sequential order, RSA private operations must equal pow(m, d, n); results and a quiescent read-back must be linearizable (real-time order from a logical clock); every placement of one switch over the whole run and of two switches in the first 40 (thorough 80) points is enumerated for fixed programs; "
          "free-running stress runs check invariants only.",
          "line-level preemption under the GIL; boundary cases age == maxAge and exactly maxEntries-1 newer stores are 'either'",
@@ -147,7 +147,7 @@ CHECKS = {
          "exhaustive enumeration of (suite, version, role) with an IANA-table oracle, reference receiver and reference PRF; MITM rewriting for undefined pairs",
          "Every suite id the library lists x every version is enumerated: defined pairs are negotiated between pinned endpoints and their records re-opened by a reference "
          "receiver keyed with the REGISTERED cipher/key size/MAC/tag/PRF (any mismatch makes authentication fail), the master secret is recomputed from the observed premaster secret (DHE also over a 1032-bit group, so odd-length secrets occur) and Finished from it with the registered PRF, key-exchange "
-         "messages and certificate presence are checked on the wire, accessor names compared with the table (TLS 1.3: also after KeyUpdate in both directions); single cipher/MAC names between all-version endpoints and sessions re-offered to a server capped at a lower version must announce registered pairs; undefined pairs are attacked from both roles and must be refused.",
+         "messages and certificate presence are checked on the wire, accessor names compared with the table (TLS 1.3: also after KeyUpdate in both directions); single cipher/MAC names between all-version endpoints and sessions re-offered to a server capped at a lower version must announce registered pairs; exported keying material must be the PRF-of-the-suite value; undefined pairs are attacked from both roles and must be refused.",
          "IANA table typed in and cross-checked against openssl ciphers -stdname; 'defined in version' only where RFCs are explicit; the premaster secret is observed by a harness-side wrapper around tlsconnection.calc_key (arguments pass through unchanged)",
          "DESIGN.md §4 C20"),
 }
